@@ -38,7 +38,7 @@ GROUPS = {
     'core': dict(crate='minijinja', features=BASE_FEATURES),
     'debug': dict(crate='minijinja', features=BASE_FEATURES + ',debug'),
     'syntax': dict(crate='minijinja', features=BASE_FEATURES + ',custom_syntax'),
-    'autoreload': dict(crate='minijinja-autoreload', features=None),
+    'autoreload': dict(crate='minijinja-autoreload', features=''),
 }
 MEM_LIMIT = int(os.environ.get('VERIF_MEM_GB', '14')) << 30
 
@@ -161,7 +161,9 @@ def group_args(group):
     g = GROUPS[group]
     a = []
     if g['features'] is not None:
-        a += ['--no-default-features', '--features', g['features']]
+        a += ['--no-default-features']
+        if g['features']:
+            a += ['--features', g['features']]
     return a
 
 
